@@ -225,6 +225,47 @@ def normalise(evs, slots, stored):
     return normalise_writes(normalise_writes(evs, slots), stored, kind="read", role="archive")
 
 
+_LOOP = {"ok": None, "devs": set()}
+
+
+def loop_ok():
+    """can this sandbox attach loop devices (root, /dev/loop-control)?  Decided once; VERIF_NO_LOOP=1 turns it off."""
+    if _LOOP["ok"] is None:
+        ok = False
+        if not os.environ.get("VERIF_NO_LOOP") and shutil.which("losetup") and os.path.exists("/dev/loop-control"):
+            import tempfile
+            t = tempfile.NamedTemporaryFile(dir="/var/tmp", delete=False)
+            t.write(b"\0" * 4096)
+            t.close()
+            d = loop_attach(t.name, probe=True)
+            if d:
+                loop_detach(d)
+                ok = True
+            os.unlink(t.name)
+        _LOOP["ok"] = ok
+        if ok:
+            import atexit
+            atexit.register(lambda: [loop_detach(x) for x in list(_LOOP["devs"])])
+    return _LOOP["ok"]
+
+
+def loop_attach(path, probe=False):
+    for _ in range(3):
+        p = subprocess.run(["losetup", "-f", "--show", path], stdout=subprocess.PIPE, stderr=subprocess.PIPE)
+        dev = p.stdout.decode().strip()
+        if p.returncode == 0 and dev.startswith("/dev/loop") and os.path.exists(dev):
+            _LOOP["devs"].add(dev)
+            return dev
+        if probe:
+            return None
+    return None
+
+
+def loop_detach(dev):
+    subprocess.run(["losetup", "-d", dev], stdout=subprocess.DEVNULL, stderr=subprocess.DEVNULL)
+    _LOOP["devs"].discard(dev)
+
+
 def main():
     import argparse
     ap = argparse.ArgumentParser()
@@ -325,10 +366,24 @@ def main():
         kind = rnd.choice(["regular", "blockdev"] if a.mode == "faults" else ["regular", "regular", "blockdev"]) if sc.get("inplace", True) and len(prior) >= len(source) and prior else "regular"
         if not sc.get("inplace", True) and not prior:
             kind = "new"
+        # half of the block-device scenarios run on a REAL block device (a loop device over a file holding the prior content) where the sandbox
+        # allows it, the others on a regular file behind hook H1: what fstat / seek / read report for a device differs from a file
+        use_loop = kind == "blockdev" and a.mode in ("plain", "stdin", "bulk", "httpfaults") and loop_ok() and rnd.random() < 0.5
+        if use_loop:
+            prior = prior + rnd.randbytes((-len(prior)) % 512)
         transport = rnd.choice(["local", "http"])
         dd = os.path.join(base, "m%d" % n)
         os.makedirs(dd)
         out = os.path.join(dd, "out.bin")
+        loopdev = None
+        if use_loop:
+            backing = os.path.join(dd, "backing.img")
+            open(backing, "wb").write(prior)
+            loopdev = loop_attach(backing)
+            if loopdev:
+                out = loopdev
+            else:
+                use_loop = False
         ap_ = os.path.join(dd, "a.cba")
         open(ap_, "wb").write(arch)
         RangeHandler.data["/a%d_%d.cba" % (a.shard, n)] = arch
@@ -358,7 +413,7 @@ def main():
         if token:
             args += ["--http-header", "X-Verif-Token: " + token]
         run_env = dict(ctx.env)
-        if kind == "blockdev":
+        if kind == "blockdev" and not use_loop:
             run_env["BITA_VERIF_BLOCKDEV"] = "1"
         out_found = [(h, o, s) for (h, o, s) in ctx.found(prior)] if inplace else []
         scen_ev = {"ev": "scenario", "n": n, "kind": kind, "inplace": inplace, "transport": transport, "src_len": len(source), "prior_len": len(prior),
@@ -367,7 +422,7 @@ def main():
                    "arch": [[ids[c["hash"]], d["data_off"] + c["aoff"], c["asz"]] for c in d["descs"]],
                    "out_found": [[ids[h], o, s] for (h, o, s) in out_found if h in ids],
                    "seed_found": sorted({ids[h] for h in seed_found if h in ids}),
-                   "layout": {k: sc.get(k) for k in ("src", "prior", "seeds")}, "nseeds": len(seeds), "stdin_seed": stdin_i, "token": token}
+                   "layout": {k: sc.get(k) for k in ("src", "prior", "seeds")}, "nseeds": len(seeds), "stdin_seed": stdin_i, "token": token, "dev": "loop" if use_loop else ("h1" if kind == "blockdev" else "file")}
 
         said = {"text": ""}
 
@@ -439,7 +494,7 @@ def main():
                     "acct": account()}
 
         if a.mode == "bulk":
-            if prior and kind != "new":
+            if prior and kind != "new" and not use_loop:
                 open(out, "wb").write(prior)
             code, msg, calls, http = run_once()
             nrun += 1
@@ -448,7 +503,7 @@ def main():
                 w.write(json.dumps(e) + "\n")
         elif a.mode == "httpfaults":
             # the CLI's retry wiring: --http-retry-count r against a server that cuts the first chunk-data transfers after k bytes
-            if prior and kind != "new":
+            if prior and kind != "new" and not use_loop:
                 open(out, "wb").write(prior)
             budget = rnd.choice([0, 1, 2, 3])
             ncuts = rnd.choice([1, 2, 3])
@@ -470,7 +525,7 @@ def main():
             for e in evs:
                 w.write(json.dumps(e) + "\n")
         elif a.mode in ("plain", "stdin"):
-            if prior and kind != "new":
+            if prior and kind != "new" and not use_loop:
                 open(out, "wb").write(prior)
             code, msg, calls, http = run_once()
             nrun += 1
@@ -479,7 +534,7 @@ def main():
                 w.write(json.dumps(e) + "\n")
         else:
             # count the writes of the uninterrupted run (with strace), then fail / tear / kill chosen ones and re-run in place
-            if prior and kind != "new":
+            if prior and kind != "new" and not use_loop:
                 open(out, "wb").write(prior)
             code, msg, calls, http = run_once()
             nrun += 1
@@ -529,6 +584,8 @@ def main():
                 evs = [ev0] + normalise(io_events(calls2, out, ap_), slots, stored) + [{"ev": "http", "first": x[0], "last": x[1], "cut": x[2], "tok": x[3]} for x in http2] + [after_ev(code2, msg2), {"ev": "done"}]
                 for e in evs:
                     w.write(json.dumps(e) + "\n")
+        if loopdev:
+            loop_detach(loopdev)
         if not os.environ.get("L2_KEEP"):
             shutil.rmtree(dd, ignore_errors=True)
         RangeHandler.data.pop("/a%d_%d.cba" % (a.shard, n), None)
